@@ -33,7 +33,7 @@ def seeds_table() -> str:
         m = json.load(open(mf))
         sid = "/".join(mf.split(os.sep)[-3:-1])
         k = sid.split("/")[1]
-        rnd = {"r2": "2 (blind)", "r3": "3 (blind)", "r4": "4 (blind)"}.get(k[:2], "1")
+        rnd = {"r2": "2 (blind)", "r3": "3 (blind)", "r4": "4 (blind)", "r5": "5 (blind)"}.get(k[:2], "1")
         ck = m.get("checks_run_against_it", {})
         rep = "; ".join(f"{p}: {', '.join(r.split('.', 1)[1] for r in rs)}" for p, rs in sorted(ck.get("reported_by", {}).items())) or "**none**"
         err = ", ".join(ck.get("analysis_error_in", [])) or ""
